@@ -231,6 +231,36 @@ def run(ctx):
             ctx.oracle("no-secular-energy-drift", second <= 3 * first + 1e-12, dict(kind="energy", method=cls.__name__, hamiltonian=hname, ordering=ordering, first_half=first, second_half=second),
                        what="energy error grows: max %.2e in the first half, %.2e in the second half of the run" % (first, second))
             ctx.count("energy:" + cls.__name__)
+    # Richardson wrappers generated on demand carry the `symplectic` flag of their basis: every class the library FLAGS symplectic is put to
+    # the test (the pendulum, one step through __call__, finite-difference Jacobian of the step map)
+    for basis in [I.SymplecticEulerSolver, I.ABAs5o6HSolver]:
+        wcls = de.integrators.generate_richardson_integrator(basis, 3)
+        if not getattr(wcls, "symplectic", False):
+            continue
+
+        def step_w(yv, wcls=wcls):
+            integ = wcls((2,), dtype=np.float64, rtol=1e-10, atol=1e-10)
+            _, (dT, dS) = integ(lambda t, y: np.array([y[1], -np.sin(y[0])]), np.float64(0.0), yv.copy(), {}, np.float64(0.25))
+            return yv + np.array(dS), float(dT)
+        try:
+            y = np.array([0.8, 0.3])
+            y1, dT0 = step_w(y)
+            M = np.zeros((2, 2))
+            eps_ = 1e-6
+            same_dt = True
+            for j in range(2):
+                e = np.zeros(2); e[j] = eps_
+                yp, d1 = step_w(y + e); ym, d2 = step_w(y - e)
+                same_dt = same_dt and d1 == dT0 and d2 == dT0
+                M[:, j] = (yp - ym) / (2 * eps_)
+            Jm = np.array([[0.0, 1.0], [-1.0, 0.0]])
+            resid = float(np.max(np.abs(M.T @ Jm @ M - Jm)))
+            if same_dt:
+                ctx.oracle("step-map-symplectic", resid <= 1e-7, dict(kind="flagged-wrapper", method="Richardson(%s,3)" % basis.__name__, residual=resid, h=0.25),
+                           key="richardson-wrapper-flagged-symplectic:" + basis.__name__, what="Richardson(%s, 3) is flagged symplectic but max |M^T J M - J| = %.2e for its one-step map" % (basis.__name__, resid))
+            ctx.count("flagged-wrapper:" + basis.__name__)
+        except Exception as e:
+            ctx.count("flagged-wrapper:exception:" + type(e).__name__)
     # the same kick mask spelled as booleans, as 0/1 integers (list and array) and given through set_kick_vars after the method was chosen:
     # one and the same map
     for cls in [I.SymplecticEulerSolver, I.BABs9o7HSolver, I.ABAs5o6HSolver]:
